@@ -11,6 +11,8 @@ mod util;
 mod api;
 mod c02;
 mod c03;
+mod c04;
+mod c05;
 mod c06;
 mod c07;
 mod c09;
@@ -34,6 +36,11 @@ fn main() {
     if args.len() < 3 {
         usage();
     }
+    if args[1] == "hunt-c05" {
+        // fvh hunt-c05 <n> <first> <count>
+        c05::hunt(args[2].parse().unwrap(), args[3].parse().unwrap(), args[4].parse().unwrap());
+        return;
+    }
     engine::install_quiet_panic_hook();
     let verif_dir = PathBuf::from(std::env::var("VERIF_DIR").unwrap_or_else(|_| "/verif".into()));
     let seed: u64 = std::env::var("VERIF_SEED").ok().and_then(|s| s.trim().parse::<i64>().ok()).map(|x| x as u64).unwrap_or(0);
@@ -54,6 +61,8 @@ fn main() {
     let code = match prop {
         "C02" => c02::run(&env, replay.as_deref()),
         "C03" => c03::run(&env, replay.as_deref()),
+        "C04" => c04::run(&env, replay.as_deref()),
+        "C05" => c05::run(&env, replay.as_deref()),
         "C06" => c06::run(&env, replay.as_deref()),
         "C07" => c07::run(&env, replay.as_deref()),
         "C14" => c14::run(&env, replay.as_deref()),
